@@ -232,6 +232,14 @@ def write_union(encoder, datum, schema, named_schemas, fname, options):
     write_data(encoder, datum, schema[index], named_schemas, fname, options)
 
 
+def _accepts_null(schema):
+    """True if the schema is the null type or a union with a null branch,
+    in either the "null" or the {"type": "null"} spelling."""
+    if isinstance(schema, list):
+        return any(extract_record_type(s) == "null" for s in schema)
+    return extract_record_type(schema) == "null"
+
+
 def write_record(encoder, datum, schema, named_schemas, fname, options):
     """A record is encoded by encoding the values of its fields in the order
     that they are declared. In other words, a record is encoded as just the
@@ -252,7 +260,7 @@ def write_record(encoder, datum, schema, named_schemas, fname, options):
                 raise ValueError(
                     f"Field {name} is specified in the schema but missing from the record"
                 )
-            elif "default" not in field and "null" not in field_type:
+            elif "default" not in field and not _accepts_null(field_type):
                 raise ValueError(f"no value and no default for {name}")
         datum_value = datum.get(name, field.get("default"))
         if field_type == "float" or field_type == "double":
